@@ -70,7 +70,8 @@ CHECKS['C12'] = ('3/C12', 'For each of the 120 accepted correlation combinations
 CHECKS['C03'] = ('3/C03', 'A real AssemblyPower built from symbolic non-negative polynomial profiles; presweep_setup and the sequence of '
                  'get_power_sweep calls of a sweep run for arbitrary plane positions inside each power cell and for each placement of the '
                  'pin-bundle bounds relative to the power mesh: deposited = assigned is an SMT query per configuration; _integrate vs closed '
-                 'form; core normalisation and scaling of every profile.')
+                 'form; core normalisation and scaling of every profile; one real region step is homogeneous in (power, temperature excess) '
+                 '(self-composition).')
 
 CHECKS['C09'] = ('3/C09', 'The geometry routines of the real Core re-run on Cores built by real Reactors (enumerated layouts) with mesh '
                  'pitches, hex side, gap width and sqrt(3) symbolic: perimeter covered once, shared cells seen identically, symmetric '
